@@ -22,3 +22,16 @@ def gen_bands(rng, it, c):
     for s in o["scalars"]:
         args[s] = rng.choice([0.0, 1.0, -1.0, 0.5, 2.5, 6.0, 7.5, -0.5])
     return args
+
+
+def gen_bins(rng, it, c):
+    """every position of a value relative to the bins: ascending bins with ties, values on / between / outside bounds"""
+    nb = rng.randint(1, 6)
+    bins = sorted(rng.choice([-3.0, -1.0, 0.0, 0.5, 1.0, 2.0, 2.0, 5.0, float("inf")]) for _ in range(nb))
+    new_values = [float(rng.randint(0, 9)) for _ in range(nb + rng.randint(0, 2))]
+    cand = sorted(set(bins)) + [b + 0.25 for b in bins if b != float("inf")] + [b - 0.25 for b in bins if b != float("inf")] + \
+        [float("nan"), float("inf"), float("-inf"), -100.0, 100.0]
+    shape = (rng.randint(0, 3), rng.randint(0, 4))
+    n = shape[0] * shape[1]
+    data = np.array([rng.choice(cand) for _ in range(n)], dtype=rng.choice(["float32", "float64"])).reshape(shape)
+    return {"data": data, "bins": np.array(bins, dtype="float64"), "new_values": np.array(new_values, dtype="float64")}
